@@ -459,7 +459,7 @@ def fn_otp_twofactor_sms2fa_SMS_GetSetup : String := "func(w http.ResponseWriter
 def fn_otp_twofactor_sms2fa_SMS_PostSetup : String := "func(w http.ResponseWriter, r *http.Request) error { abUser, err := s.CurrentUser(r) if err != nil { return err } user := abUser.(User) validator, err := s.Authboss.Config.Core.BodyReader.Read(PageSMSSetup, r) if err != nil { return err } smsVals := MustHaveSMSPhoneNumberValue(validator) number := smsVals.GetPhoneNumber() if len(number) == 0 { data := authboss.HTMLData{ authboss.DataValidation: map[string][]string{FormValuePhoneNumber: { s.Localizef(r.Context(), authboss.TxtSMSNumberRequired), }}, } return s.Core.Responder.Respond(w, r, http.StatusOK, PageSMSSetup, data) } authboss.PutSession(w, SessionSMSNumber, number) if err = s.SendCodeToUser(w, r, user.GetPID(), number); err != nil { return err } ro := authboss.RedirectOptions{ Code: http.StatusTemporaryRedirect, RedirectPath: s.Paths.Mount + \"/2fa/sms/confirm\", } return s.Core.Redirector.Redirect(w, r, ro) }"
 def fn_otp_twofactor_sms2fa_SMSValidator_Post : String := "func(w http.ResponseWriter, r *http.Request) error { abUser, err := s.Authboss.CurrentUser(r) if err == authboss.ErrUserNotFound { pid, ok := authboss.GetSession(r, SessionSMSPendingPID) if ok && len(pid) != 0 { abUser, err = s.Authboss.Config.Storage.Server.Load(r.Context(), pid) } } if err != nil { return err } user := abUser.(User) validator, err := s.Authboss.Config.Core.BodyReader.Read(s.Page, r) if err != nil { return err } smsCodeValues := MustHaveSMSValues(validator) var inputCode, recoveryCode string inputCode = smsCodeValues.GetCode() if s.Page == PageSMSValidate || s.Page == PageSMSRemove { recoveryCode = smsCodeValues.GetRecoveryCode() } if len(recoveryCode) == 0 && len(inputCode) == 0 { return s.sendCode(w, r, user) } if len(recoveryCode) != 0 { return s.validateCode(w, r, user, \"\", recoveryCode) } return s.validateCode(w, r, user, inputCode, \"\") }"
 def fn_otp_twofactor_sms2fa_SMSValidator_sendCode : String := "func(w http.ResponseWriter, r *http.Request, user User) error { var phoneNumber string switch s.Page { case PageSMSConfirm: var ok bool phoneNumber, ok = authboss.GetSession(r, SessionSMSNumber) if !ok { return errors.New(\"request failed, no sms number present in session\") } case PageSMSValidate, PageSMSRemove: phoneNumber = user.GetSMSPhoneNumber() } if len(phoneNumber) == 0 { return errors.Errorf(\"no phone number was available in PostSendCode for user %s\", user.GetPID()) } var data authboss.HTMLData err := s.SendCodeToUser(w, r, user.GetPID(), phoneNumber) if err == errSMSRateLimit { data = authboss.HTMLData{authboss.DataErr: s.Localizef(r.Context(), authboss.TxtSMSWaitToResend)} } else if err != nil { return err } return s.Core.Responder.Respond(w, r, http.StatusOK, s.Page, data) }"
-def fn_otp_twofactor_sms2fa_SMSValidator_validateCode : String := "func(w http.ResponseWriter, r *http.Request, user User, inputCode, recoveryCode string) error { var verified bool if len(recoveryCode) != 0 { var ok bool recoveryCodes := twofactor.DecodeRecoveryCodes(user.GetRecoveryCodes()) recoveryCodes, ok = twofactor.UseRecoveryCode(recoveryCodes, recoveryCode) verified = ok if verified { user.PutRecoveryCodes(twofactor.EncodeRecoveryCodes(recoveryCodes)) if err := s.Authboss.Config.Storage.Server.Save(r.Context(), user); err != nil { return err } } } else { code, ok := authboss.GetSession(r, SessionSMSSecret) if !ok || len(code) == 0 { return errors.Errorf(\"no code in session for user %s\", user.GetPID()) } verified = 1 == subtle.ConstantTimeCompare([]byte(inputCode), []byte(code)) } if !verified { r = r.WithContext(context.WithValue(r.Context(), authboss.CTXKeyUser, user)) handled, err := s.Authboss.Events.FireAfter(authboss.EventAuthFail, w, r) if err != nil { return err } else if handled { return nil } data := authboss.HTMLData{ authboss.DataValidation: map[string][]string{FormValueCode: {s.Localizef(r.Context(), authboss.TxtInvalid2FACode)}}, } return s.Authboss.Core.Responder.Respond(w, r, http.StatusOK, s.Page, data) } var data authboss.HTMLData switch s.Page { case PageSMSConfirm: phoneNumber, ok := authboss.GetSession(r, SessionSMSNumber) if !ok { return errors.New(\"request failed, no sms number present in session\") } codes, err := twofactor.GenerateRecoveryCodes() if err != nil { return err } crypted, err := twofactor.BCryptRecoveryCodes(codes) if err != nil { return err } user.PutSMSPhoneNumber(phoneNumber) user.PutRecoveryCodes(twofactor.EncodeRecoveryCodes(crypted)) if err = s.Authboss.Config.Storage.Server.Save(r.Context(), user); err != nil { return err } authboss.DelSession(w, authboss.Session2FAAuthed) authboss.DelSession(w, SessionSMSSecret) authboss.DelSession(w, SessionSMSNumber) data = authboss.HTMLData{twofactor.DataRecoveryCodes: codes} r = r.WithContext(context.WithValue(r.Context(), authboss.CTXKeyUser, user)) if handled, err := s.Authboss.Events.FireAfter(authboss.EventTwoFactorAdded, w, r); err != nil { return err } else if handled { return nil } case PageSMSRemove: user.PutSMSPhoneNumber(\"\") if err := s.Authboss.Config.Storage.Server.Save(r.Context(), user); err != nil { return err } authboss.DelSession(w, authboss.Session2FA) r = r.WithContext(context.WithValue(r.Context(), authboss.CTXKeyUser, user)) if handled, err := s.Authboss.Events.FireAfter(authboss.EventTwoFactorRemoved, w, r); err != nil { return err } else if handled { return nil } case PageSMSValidate: authboss.PutSession(w, authboss.SessionKey, user.GetPID()) authboss.PutSession(w, authboss.Session2FA, \"sms\") authboss.DelSession(w, authboss.SessionHalfAuthKey) authboss.DelSession(w, SessionSMSPendingPID) authboss.DelSession(w, SessionSMSSecret) r = r.WithContext(context.WithValue(r.Context(), authboss.CTXKeyUser, user)) handled, err := s.Authboss.Events.FireAfter(authboss.EventAuth, w, r) if err != nil { return err } else if handled { return nil } ro := authboss.RedirectOptions{ Code: http.StatusTemporaryRedirect, RedirectPath: s.Authboss.Config.Paths.AuthLoginOK, FollowRedirParam: true, } return s.Authboss.Core.Redirector.Redirect(w, r, ro) default: return errors.New(\"unknown action for sms validate\") } return s.Authboss.Core.Responder.Respond(w, r, http.StatusOK, s.Page+successSuffix, data) }"
+def fn_otp_twofactor_sms2fa_SMSValidator_validateCode : String := "func(w http.ResponseWriter, r *http.Request, user User, inputCode, recoveryCode string) error { var verified bool if len(recoveryCode) != 0 { var ok bool recoveryCodes := twofactor.DecodeRecoveryCodes(user.GetRecoveryCodes()) recoveryCodes, ok = twofactor.UseRecoveryCode(recoveryCodes, recoveryCode) verified = ok if verified { user.PutRecoveryCodes(twofactor.EncodeRecoveryCodes(recoveryCodes)) if err := s.Authboss.Config.Storage.Server.Save(r.Context(), user); err != nil { return err } } } else { code, ok := authboss.GetSession(r, SessionSMSSecret) if !ok || len(code) == 0 { return errors.Errorf(\"no code in session for user %s\", user.GetPID()) } verified = 1 == subtle.ConstantTimeCompare([]byte(inputCode), []byte(code)) } if !verified { r = r.WithContext(context.WithValue(r.Context(), authboss.CTXKeyUser, user)) handled, err := s.Authboss.Events.FireAfter(authboss.EventAuthFail, w, r) if err != nil { return err } else if handled { return nil } data := authboss.HTMLData{ authboss.DataValidation: map[string][]string{FormValueCode: {s.Localizef(r.Context(), authboss.TxtInvalid2FACode)}}, } return s.Authboss.Core.Responder.Respond(w, r, http.StatusOK, s.Page, data) } var data authboss.HTMLData switch s.Page { case PageSMSConfirm: phoneNumber, ok := authboss.GetSession(r, SessionSMSNumber) if !ok { return errors.New(\"request failed, no sms number present in session\") } codes, err := twofactor.GenerateRecoveryCodes() if err != nil { return err } crypted, err := twofactor.BCryptRecoveryCodes(codes) if err != nil { return err } user.PutSMSPhoneNumber(phoneNumber) user.PutRecoveryCodes(twofactor.EncodeRecoveryCodes(crypted)) if err = s.Authboss.Config.Storage.Server.Save(r.Context(), user); err != nil { return err } authboss.DelSession(w, authboss.Session2FAAuthed) authboss.DelSession(w, SessionSMSSecret) authboss.DelSession(w, SessionSMSNumber) data = authboss.HTMLData{twofactor.DataRecoveryCodes: codes} r = r.WithContext(context.WithValue(r.Context(), authboss.CTXKeyUser, user)) if handled, err := s.Authboss.Events.FireAfter(authboss.EventTwoFactorAdded, w, r); err != nil { return err } else if handled { return nil } case PageSMSRemove: user.PutSMSPhoneNumber(\"\") if err := s.Authboss.Config.Storage.Server.Save(r.Context(), user); err != nil { return err } authboss.DelSession(w, authboss.Session2FA) r = r.WithContext(context.WithValue(r.Context(), authboss.CTXKeyUser, user)) if handled, err := s.Authboss.Events.FireAfter(authboss.EventTwoFactorRemoved, w, r); err != nil { return err } else if handled { return nil } case PageSMSValidate: r = r.WithContext(context.WithValue(r.Context(), authboss.CTXKeyUser, user)) handled, err := s.Authboss.Events.FireBefore(authboss.EventAuth, w, r) if err != nil { return err } else if handled { return nil } authboss.PutSession(w, authboss.SessionKey, user.GetPID()) authboss.PutSession(w, authboss.Session2FA, \"sms\") authboss.DelSession(w, authboss.SessionHalfAuthKey) authboss.DelSession(w, SessionSMSPendingPID) authboss.DelSession(w, SessionSMSSecret) handled, err = s.Authboss.Events.FireAfter(authboss.EventAuth, w, r) if err != nil { return err } else if handled { return nil } ro := authboss.RedirectOptions{ Code: http.StatusTemporaryRedirect, RedirectPath: s.Authboss.Config.Paths.AuthLoginOK, FollowRedirParam: true, } return s.Authboss.Core.Redirector.Redirect(w, r, ro) default: return errors.New(\"unknown action for sms validate\") } return s.Authboss.Core.Responder.Respond(w, r, http.StatusOK, s.Page+successSuffix, data) }"
 def fn_otp_twofactor_sms2fa_generateRandomCode : String := "func() (code string, err error) { sb := new(strings.Builder) random := make([]byte, smsCodeLength) if _, err = io.ReadFull(rand.Reader, random); err != nil { return \"\", err } for i := range random { sb.WriteByte(random[i]%10 + 48) } return sb.String(), nil }"
 def consts_otp_twofactor_sms2fa : List (String × String) := [
   ("otp_twofactor_sms2fa.SessionSMSNumber", "\"sms_number\""),
@@ -526,7 +526,7 @@ def fn_otp_twofactor_totp2fa_TOTP_GetSetup : String := "func(w http.ResponseWrit
 def fn_otp_twofactor_totp2fa_TOTP_PostSetup : String := "func(w http.ResponseWriter, r *http.Request) error { abUser, err := t.CurrentUser(r) if err != nil { return err } user := abUser.(User) key, err := totp.Generate(totp.GenerateOpts{ Issuer: t.Authboss.Config.Modules.TOTP2FAIssuer, AccountName: user.GetEmail(), }) if err != nil { return errors.Wrap(err, \"failed to create a totp key\") } secret := key.Secret() authboss.PutSession(w, SessionTOTPSecret, secret) ro := authboss.RedirectOptions{ Code: http.StatusTemporaryRedirect, RedirectPath: t.Paths.Mount + \"/2fa/totp/confirm\", } return t.Core.Redirector.Redirect(w, r, ro) }"
 def fn_otp_twofactor_totp2fa_TOTP_PostConfirm : String := "func(w http.ResponseWriter, r *http.Request) error { abUser, err := t.CurrentUser(r) if err != nil { return err } user := abUser.(User) totpSecret, ok := authboss.GetSession(r, SessionTOTPSecret) if !ok { return errors.New(\"request failed, no totp secret present in session\") } validator, err := t.Authboss.Config.Core.BodyReader.Read(PageTOTPConfirm, r) if err != nil { return err } totpCodeValues := MustHaveTOTPCodeValues(validator) inputCode := totpCodeValues.GetCode() ok = totp.Validate(inputCode, totpSecret) if !ok { data := authboss.HTMLData{ authboss.DataValidation: map[string][]string{FormValueCode: { t.Localizef(r.Context(), authboss.TxtInvalid2FACode), }}, DataTOTPSecret: totpSecret, } return t.Authboss.Core.Responder.Respond(w, r, http.StatusOK, PageTOTPConfirm, data) } codes, err := twofactor.GenerateRecoveryCodes() if err != nil { return err } crypted, err := twofactor.BCryptRecoveryCodes(codes) if err != nil { return err } user.PutTOTPSecretKey(totpSecret) user.PutRecoveryCodes(twofactor.EncodeRecoveryCodes(crypted)) if oneTime, ok := user.(UserOneTime); ok { oneTime.PutTOTPLastCode(inputCode) } if err = t.Authboss.Config.Storage.Server.Save(r.Context(), user); err != nil { return err } authboss.DelSession(w, SessionTOTPSecret) authboss.DelSession(w, authboss.Session2FAAuthed) r = r.WithContext(context.WithValue(r.Context(), authboss.CTXKeyUser, user)) if handled, err := t.Authboss.Events.FireAfter(authboss.EventTwoFactorAdded, w, r); err != nil { return err } else if handled { return nil } data := authboss.HTMLData{twofactor.DataRecoveryCodes: codes} return t.Authboss.Core.Responder.Respond(w, r, http.StatusOK, PageTOTPConfirmSuccess, data) }"
 def fn_otp_twofactor_totp2fa_TOTP_PostRemove : String := "func(w http.ResponseWriter, r *http.Request) error { user, status, err := t.validate(r) switch { case err == errNoTOTPEnabled: data := authboss.HTMLData{authboss.DataErr: t.Localizef(r.Context(), authboss.TxtTOTP2FANotActive)} return t.Authboss.Core.Responder.Respond(w, r, http.StatusOK, PageTOTPRemove, data) case err != nil: return err case status != t.Localizef(r.Context(), authboss.TxtSuccess): data := authboss.HTMLData{ authboss.DataValidation: map[string][]string{FormValueCode: {status}}, } return t.Authboss.Core.Responder.Respond(w, r, http.StatusOK, PageTOTPRemove, data) } authboss.DelSession(w, authboss.Session2FA) user.PutTOTPSecretKey(\"\") if err = t.Authboss.Config.Storage.Server.Save(r.Context(), user); err != nil { return err } r = r.WithContext(context.WithValue(r.Context(), authboss.CTXKeyUser, user)) if handled, err := t.Authboss.Events.FireAfter(authboss.EventTwoFactorRemoved, w, r); err != nil { return err } else if handled { return nil } return t.Authboss.Core.Responder.Respond(w, r, http.StatusOK, PageTOTPRemoveSuccess, nil) }"
-def fn_otp_twofactor_totp2fa_TOTP_PostValidate : String := "func(w http.ResponseWriter, r *http.Request) error { user, status, err := t.validate(r) switch { case err == errNoTOTPEnabled: data := authboss.HTMLData{authboss.DataErr: t.Localizef( r.Context(), authboss.TxtTOTP2FANotActive)} return t.Authboss.Core.Responder.Respond(w, r, http.StatusOK, PageTOTPValidate, data) case err != nil: return err case status != t.Localizef(r.Context(), authboss.TxtSuccess): r = r.WithContext(context.WithValue(r.Context(), authboss.CTXKeyUser, user)) handled, err := t.Authboss.Events.FireAfter(authboss.EventAuthFail, w, r) if err != nil { return err } else if handled { return nil } data := authboss.HTMLData{ authboss.DataValidation: map[string][]string{FormValueCode: {status}}, } return t.Authboss.Core.Responder.Respond(w, r, http.StatusOK, PageTOTPValidate, data) } if _, ok := user.(UserOneTime); ok { if err = t.Authboss.Config.Storage.Server.Save(r.Context(), user); err != nil { return err } } authboss.PutSession(w, authboss.SessionKey, user.GetPID()) authboss.PutSession(w, authboss.Session2FA, \"totp\") authboss.DelSession(w, authboss.SessionHalfAuthKey) authboss.DelSession(w, SessionTOTPPendingPID) authboss.DelSession(w, SessionTOTPSecret) r = r.WithContext(context.WithValue(r.Context(), authboss.CTXKeyUser, user)) handled, err := t.Authboss.Events.FireAfter(authboss.EventAuth, w, r) if err != nil { return err } else if handled { return nil } ro := authboss.RedirectOptions{ Code: http.StatusTemporaryRedirect, RedirectPath: t.Authboss.Config.Paths.AuthLoginOK, FollowRedirParam: true, } return t.Authboss.Core.Redirector.Redirect(w, r, ro) }"
+def fn_otp_twofactor_totp2fa_TOTP_PostValidate : String := "func(w http.ResponseWriter, r *http.Request) error { user, status, err := t.validate(r) switch { case err == errNoTOTPEnabled: data := authboss.HTMLData{authboss.DataErr: t.Localizef( r.Context(), authboss.TxtTOTP2FANotActive)} return t.Authboss.Core.Responder.Respond(w, r, http.StatusOK, PageTOTPValidate, data) case err != nil: return err case status != t.Localizef(r.Context(), authboss.TxtSuccess): r = r.WithContext(context.WithValue(r.Context(), authboss.CTXKeyUser, user)) handled, err := t.Authboss.Events.FireAfter(authboss.EventAuthFail, w, r) if err != nil { return err } else if handled { return nil } data := authboss.HTMLData{ authboss.DataValidation: map[string][]string{FormValueCode: {status}}, } return t.Authboss.Core.Responder.Respond(w, r, http.StatusOK, PageTOTPValidate, data) } if _, ok := user.(UserOneTime); ok { if err = t.Authboss.Config.Storage.Server.Save(r.Context(), user); err != nil { return err } } r = r.WithContext(context.WithValue(r.Context(), authboss.CTXKeyUser, user)) handled, err := t.Authboss.Events.FireBefore(authboss.EventAuth, w, r) if err != nil { return err } else if handled { return nil } authboss.PutSession(w, authboss.SessionKey, user.GetPID()) authboss.PutSession(w, authboss.Session2FA, \"totp\") authboss.DelSession(w, authboss.SessionHalfAuthKey) authboss.DelSession(w, SessionTOTPPendingPID) authboss.DelSession(w, SessionTOTPSecret) handled, err = t.Authboss.Events.FireAfter(authboss.EventAuth, w, r) if err != nil { return err } else if handled { return nil } ro := authboss.RedirectOptions{ Code: http.StatusTemporaryRedirect, RedirectPath: t.Authboss.Config.Paths.AuthLoginOK, FollowRedirParam: true, } return t.Authboss.Core.Redirector.Redirect(w, r, ro) }"
 def fn_otp_twofactor_totp2fa_TOTP_validate : String := "func(r *http.Request) (User, string, error) { abUser, err := t.CurrentUser(r) if err == authboss.ErrUserNotFound { pid, ok := authboss.GetSession(r, SessionTOTPPendingPID) if ok && len(pid) != 0 { abUser, err = t.Authboss.Config.Storage.Server.Load(r.Context(), pid) } } if err != nil { return nil, \"\", err } user := abUser.(User) secret := user.GetTOTPSecretKey() if len(secret) == 0 { return user, \"\", errNoTOTPEnabled } validator, err := t.Authboss.Config.Core.BodyReader.Read(PageTOTPValidate, r) if err != nil { return nil, \"\", err } totpCodeValues := MustHaveTOTPCodeValues(validator) if recoveryCode := totpCodeValues.GetRecoveryCode(); len(recoveryCode) != 0 { var ok bool recoveryCodes := twofactor.DecodeRecoveryCodes(user.GetRecoveryCodes()) recoveryCodes, ok = twofactor.UseRecoveryCode(recoveryCodes, recoveryCode) if ok { user.PutRecoveryCodes(twofactor.EncodeRecoveryCodes(recoveryCodes)) if err := t.Authboss.Config.Storage.Server.Save(r.Context(), user); err != nil { return nil, \"\", err } } else { return user, t.Localizef(r.Context(), authboss.TxtInvalid2FACode), nil } return user, t.Localizef(r.Context(), authboss.TxtSuccess), nil } input := totpCodeValues.GetCode() if oneTime, ok := user.(UserOneTime); ok { oldCode := oneTime.GetTOTPLastCode() if oldCode == input { return user, t.Localizef(r.Context(), authboss.TxtRepeated2FACode), nil } oneTime.PutTOTPLastCode(input) } if !totp.Validate(input, secret) { return user, t.Localizef(r.Context(), authboss.TxtInvalid2FACode), nil } return user, t.Localizef(r.Context(), authboss.TxtSuccess), nil }"
 def consts_otp_twofactor_totp2fa : List (String × String) := [
   ("otp_twofactor_totp2fa.otpKeyFormat", "\"otpauth://totp/%s:%s?issuer=%s&secret=%s\""),
